@@ -594,11 +594,12 @@ func (v Value) opNeq(b Value) Value { return Bool(!v.Equals(b)) }
 func (v Value) Equals(b Value) bool {
 	switch {
 	case v.t == TypeBool:
-		return v.num == b.num
+		return b.t == TypeBool && v.num == b.num
 	case (v.t & TypeFloat64) > 0:
-		return v.num == b.num
+		// operands of different kinds (values held in an any) are never equal; a string's num is 0
+		return (b.t&TypeFloat64) > 0 && v.num == b.num
 	case v.t == TypeString:
-		return v.value.(stringT) == b.value.(stringT)
+		return b.t == TypeString && v.value.(stringT) == b.value.(stringT)
 	case v.t.base() == TypeStruct, v.t == TypeFunc:
 		return (b.t == TypeNil && v.value == nil) || v.value == b.value
 	case v.t == TypeNil && b.t == TypeNil:
